@@ -320,6 +320,7 @@ def random_schedules(args):
 
 backlog_cases = st.fixed_dictionaries({
     "scenario": st.just("backlog"),
+    "repeat": st.sampled_from([False, False, True]),  # producers queue the SAME command again and again (switch on, on, on ...)
     "bursts": st.lists(st.tuples(st.integers(0, 3), st.one_of(st.integers(1, 8), st.sampled_from([64, 255, 256, 257, 300, 1000, 1024, 2049]))), min_size=1, max_size=8),
 })
 
@@ -340,7 +341,7 @@ def backlog(case, stats=None):
     for producer, length in case["bursts"]:
         for _ in range(length):
             counts[producer] = counts.get(producer, 0) + 1
-            cmd = f"{producer + 1};{producer + 1};1;0;24;{counts[producer]}\n"
+            cmd = f"{producer + 1};{producer + 1};1;0;24;{1 if case.get('repeat') else counts[producer]}\n"
             gw.tasks.add_job(str, cmd)
             order.append(cmd)
 
@@ -360,8 +361,8 @@ def backlog(case, stats=None):
         task.time = saved
     wrote = [data.decode() for _, data, _ in log]
     if wrote != order:
-        missing = [c for c in order if c not in set(wrote)]
-        dup = len(wrote) - len(set(wrote))
+        missing = [c for c in order if c not in set(wrote)] or order[len(wrote):]
+        dup = max(0, len(wrote) - len(order))
         raise Violation(
             "backlog_lost_or_reordered", case,
             f"[backlog] {len(order)} commands queued by {len(counts)} producers while the pump was busy; {len(wrote)} written, {len(missing)} never sent (first: {missing[:1]}), {dup} duplicates"
